@@ -120,7 +120,7 @@ Observe1(s0, v) ==
           !.nOut = IF nfull THEN nd.out ELSE <<>>, !.perms = IF nfull THEN nd.tab ELSE @,
           !.cState = IF cfull THEN cd.st ELSE @, !.cIn = IF cfull THEN <<>> ELSE cIn1,
           !.cOut = IF cfull THEN cd.out ELSE <<>>, !.cperms = IF cfull THEN cd.tab ELSE @,
-          !.cOnce = IF cfull THEN TRUE ELSE @, !.cchain = IF cfull THEN cd.st ELSE @]
+          !.cOnce = IF cfull /\ BasePath THEN TRUE ELSE @, !.cchain = IF cfull THEN cd.st ELSE @]
 
 Sample1(s0) ==
     LET s == CEnsureInit(s0)
@@ -135,7 +135,7 @@ Sample1(s0) ==
           !.perms = IF nneed THEN nd.tab ELSE @,
           !.nOut = SubSeq(nOut1, 1, Len(nOut1) - 1), !.sN = Append(@, nOut1[Len(nOut1)]),
           !.cState = IF cneed THEN cd.st ELSE @, !.cIn = IF cneed THEN <<>> ELSE @,
-          !.cperms = IF cneed THEN cd.tab ELSE @, !.cOnce = IF cneed THEN TRUE ELSE @,
+          !.cperms = IF cneed THEN cd.tab ELSE @, !.cOnce = IF cneed /\ BasePath THEN TRUE ELSE @,
           !.cchain = IF cneed THEN cd.st ELSE @,
           !.cOut = SubSeq(cOut1, 1, Len(cOut1) - 1), !.sC = Append(@, cOut1[Len(cOut1)])]
 
